@@ -687,11 +687,11 @@ impl Gen {
             }
         };
         let prop = self.profile.prop.clone();
-        if matches!(prop.as_str(), "C03" | "C09" | "C14") && rng.chance(1, 8) {
+        if matches!(prop.as_str(), "C03" | "C09" | "C14" | "C12" | "C11" | "C13" | "C04" | "C02") && rng.chance(1, 8) {
             // re-point the vAMM's own insurance-fund / margin-engine fields (and back)
             let vo = &r.obs.vamms[v];
             let to_if = if vo.insurance_fund == r.w.addrs.insurance_fund { (*rng.pick(&["newowner", "stranger"])).to_string() } else { "@if".to_string() };
-            let (me, ifn) = if rng.chance(1, 5) {
+            let (me, ifn) = if matches!(prop.as_str(), "C03" | "C09" | "C14") && rng.chance(1, 5) {
                 (Some(if vo.margin_engine == r.w.addrs.engine { "stranger".to_string() } else { "@engine".to_string() }), None)
             } else {
                 (None, Some(to_if))
